@@ -286,6 +286,9 @@ PROPS["C12"] = dict(
         dict(pkg=CT, run="^VerifC12_Ops1$", tiers=["quick", "thorough"], replay="model", preempt=1, timeout=1500, reach=["settled", "program-ran"]),
         dict(pkg=CT, run="^VerifC12_Ops1Cancel$", tiers=["quick", "thorough"], replay="model", preempt=1, timeout=1500, reach=["settled", "program-ran"]),
         dict(pkg=CT, run="^VerifC12_Ops2$", tiers=["thorough"], replay="model", preempt=1, timeout=30000, max_paths=50000000),
+        dict(pkg=FE, run="^VerifC07_Faults_p0$", tiers=["quick", "thorough"], replay="model", preempt=0, timeout=1500, reach=["start-error"]),
+        dict(pkg=FE, run="^VerifC07_Faults_p2$", tiers=["quick", "thorough"], replay="model", preempt=0, timeout=1500, reach=["start-error"]),
+        dict(pkg=US, run="^VerifC11_UnshareCancel$", tiers=["quick", "thorough"], replay="model", preempt=2, reach=["context-outlives-run"]),
         dict(pkg=PT, run="^VerifC03_MultiProc$", tiers=["quick", "thorough"], replay="model", timeout=900),
     ],
 )
@@ -303,6 +306,8 @@ PROPS["C14"] = dict(
     harnesses=[
         dict(pkg=CT, run="^VerifC14_OpenBatch$", replay="model", preempt=0, timeout=900, reach=["empty-batch", "item-ok", "item-failed"]),
         dict(pkg=CT, run="^VerifC14_HostDefensive$", replay="model", preempt=0, reach=["accepted", "rejected"]),
+        dict(pkg=CT, run="^VerifC14_DeleteSymlinkHistory$", replay="model", preempt=1, timeout=900, reach=["final-ping"]),
+        dict(pkg=CT, run="^VerifC14_PlantedBetweenOpens$", replay="model", preempt=1, timeout=900, reach=["created", "reopened"]),
     ],
 )
 
@@ -338,5 +343,62 @@ PROPS["C17"] = dict(
     harnesses=[
         dict(pkg=CT, run="^VerifC17_TwoCallers$", replay="model", preempt=2, timeout=1500, reach=["both-returned"]),
         dict(pkg=PT, run="^VerifC03_Trace_Quick$", replay="model", timeout=900),
+    ],
+)
+
+PROPS["C13"] = dict(
+    level="other",
+    level_text=("Bounded symbolic execution of handleReset/removeContents over a symbolic mount table (<=3 entries, symbolic fs type) with <=2 leftover entries per target and symbolic faults "
+                "on open/readdir/removeall: a success reply implies that no tmpfs target has anything left, any failure yields an error reply, no directory handle leaks. memfd.DupToMemfd "
+                "with symbolic content and a fault at each step: success => MFD_CLOEXEC|MFD_ALLOW_SEALING, content equals the reader's bytes, all four seals applied after the copy, offset 0; "
+                "failure => descriptor closed exactly once, no file returned."),
+    level_note=SYMEX_NOTE + "RemoveAll contract: removes the named subtree whatever its kind or mode, or fails. Kernel seal semantics are a clause. fexecve via execveat(AT_EMPTY_PATH) is checked in C04/C06.",
+    explanation="handleReset + removeContents + DupToMemfd/New with file-system and memfd stubs.",
+    bounds={"mount table": "<=3 entries, fs type in {tmpfs, bind, proc}", "leftovers": "<=2 per target", "memfd content": "3 symbolic bytes read in 2-byte chunks", "faults": "one per step"},
+    outside=["writable bind mounts are by design not reset", "kernel seal semantics", "real directory trees (RemoveAll contract)"],
+    assumptions=["os.RemoveAll contract"],
+    harnesses=[
+        dict(pkg=CT, run="^VerifC13_Reset$", replay="model", preempt=0, reach=["success", "error-reply"]),
+        dict(pkg="./pkg/memfd", run="^VerifC13_Memfd$", replay="model", preempt=0, reach=["success", "failure"]),
+    ],
+)
+
+PROPS["C19"] = dict(
+    level="other",
+    level_text=("Bounded symbolic execution of unixsocket SendMsg/RecvMsg/parseMsg against a SEQPACKET+ancillary-data contract model (payload length, receive buffer length, number of rights, "
+                "credentials, control-buffer size vary; the kernel installs the rights that fit even when it raises MSG_TRUNC/MSG_CTRUNC): a delivered message has the sender's length, the same "
+                "open files in order and the credentials; truncation is never delivered as success; on every error return each installed descriptor was closed exactly once; arbitrary control "
+                "messages from a hostile peer; the framed layer rejects an encoded length (64-bit symbolic, classes around the 32 KiB cap) above the cap before anything is sent."),
+    level_note=SYMEX_NOTE + "The cmsg codecs of package syscall (unsafe reinterpretation) are replaced by a codec with the real CmsgSpace sizes; gob is replaced by a length stub. Linux merges all SCM_RIGHTS of one sendmsg into one message (assumed).",
+    explanation="(*Socket).SendMsg/RecvMsg/parseMsg/closeRights and container.(*socket).SendMsg executed symbolically over the socket model.",
+    bounds={"payload / buffer": "0..5 bytes each (relative order is what matters)", "rights": "0..3", "control buffer": "4096 or 24/32/40 bytes", "hostile peer": "<=2 control messages of kind rights/cred/foreign",
+            "framed length": "any 0..40000 (classes 0, small, cap-1, cap, cap+1, large)"},
+    outside=["gob's stateful type stream across messages", "socketpair constructors' error paths (not built)"],
+    assumptions=["K-SOCK SEQPACKET contract incl. MSG_CMSG_CLOEXEC"],
+    harnesses=[
+        dict(pkg="./pkg/unixsocket", run="^VerifC19_RoundTrip$", replay="model", preempt=0, reach=["delivered", "rejected"]),
+        dict(pkg="./pkg/unixsocket", run="^VerifC19_HostilePeer$", replay="model", preempt=0, reach=["delivered"]),
+        dict(pkg=CT, run="^VerifC19_FramedCap$", replay="model", preempt=0, reach=["too-large", "fits"]),
+    ],
+)
+
+PROPS["C20"] = dict(
+    level="other",
+    level_text=("Bounded symbolic execution / model checking of the cgroup library over a K-FS model of the hierarchy (mkdir atomic create-or-EEXIST; stat, mkdir, rmdir separate scheduling points): "
+                "v2 New/Random/Destroy with symbolic pre-existence and a nondeterministic random source (collisions reachable); two concurrent creators of the same group on v1 and v2 under all "
+                "interleavings within delay bound 2 (at most one owner, loser's cleanup never removes the winner's directory); readers on file contents with symbolic digits, malformed numerals, "
+                "extra fields and missing files (value*1000 ns / bytes / count or an error, never a wrong number); AddProc/SetMemoryLimit/SetProcLimit write the decimal value to the group's own file."),
+    level_note=SYMEX_NOTE + "That writing a pid moves the process is the kernel's part (outside).",
+    explanation="cgroup.New/newV1/newV2/V2.New/Random/Destroy/EnsureDirExists/randomBuild/readers/writers over the cgfs model.",
+    bounds={"creators": "2 concurrent (delay bound 2)", "numerals": "1..3 symbolic decimal digits + 3 malformed variants", "written values": "all values < 100 symbolic, 4 large representatives",
+            "random source": "values {1,2} for the first 4 draws"},
+    outside=["v1 readers (same ReadUint code path)", "Nest/OpenExisting/cpuset initialisation", "kernel behaviour of cgroup files"],
+    assumptions=["K-FS: mkdir is atomic; a new cgroup directory is populated with its control files"],
+    harnesses=[
+        dict(pkg="./pkg/cgroup", run="^VerifC20_V2Lifecycle$", replay="model", preempt=0, reach=["new", "random", "random-twice"]),
+        dict(pkg="./pkg/cgroup", run="^VerifC20_V2ConcurrentNew$", replay="model", preempt=2, reach=["both-done"]),
+        dict(pkg="./pkg/cgroup", run="^VerifC20_V1ConcurrentNew$", replay="model", preempt=2, reach=["both-done"]),
+        dict(pkg="./pkg/cgroup", run="^VerifC20_Readers$", replay="model", preempt=0, timeout=900, reach=["cpu-valid", "cpu-malformed", "cpu-missing-field", "mem-valid", "missing-file"]),
+        dict(pkg="./pkg/cgroup", run="^VerifC20_Writers$", replay="model", preempt=0, reach=["addproc", "memlimit", "proclimit"]),
     ],
 )
